@@ -2,6 +2,9 @@
 open Common
 let nn s = n_of_int (int_of_string s)
 let handle = function
+  | ["flags"; certify; sign; enc; auth] ->
+    let caps = (match enc with "comm" -> Flags.CapComm | "stor" -> Flags.CapStor | "all" -> Flags.CapAll | _ -> Flags.CapNone) in
+    string_of_int (int_of_n (Flags.flags_octet { Flags.r_certify = (certify = "1"); Flags.r_sign = (sign = "1"); Flags.r_enc = caps; Flags.r_auth = (auth = "1") }))
   | ["mpi"; native] -> hex_of_bytes (Scalar.mpi_encode (bytes_of_hex native))
   | ["padstrip"; n; b] ->
     (match Scalar.pad_to (nn n) (Scalar.strip (bytes_of_hex b)) with Some v -> hex_of_bytes v | None -> "NONE")
